@@ -628,6 +628,13 @@ def subscript(I, base, key):
         if key not in base.enum_members:
             raise SymRaise("KeyError", key)
         return base.enum_members[key]
+    if isinstance(base, list) and isinstance(key, str):
+        named = getattr(base, "named", None)
+        if named is None:
+            raise SymRaise("TypeError", "list indices must be integers")
+        if key not in named:
+            raise SymRaise("KeyError", key)
+        return named[key]
     if isinstance(base, (list, tuple, str)):
         if isinstance(key, slice):
             return base[key]
@@ -1609,6 +1616,41 @@ def external(I, dotted):
         return ModuleVal(dotted, external=dotted)
     if dotted in ("weakref.WeakValueDictionary", "weakref.WeakKeyDictionary"):
         return Builtin(dotted, lambda *a, **k: WeakDict())
+    if dotted in ("contextlib", "ast", "enum", "contextlib.contextmanager"):
+        if dotted == "contextlib.contextmanager":
+            raise AnalysisError("contextlib.contextmanager is not modelled")
+        return ModuleVal(dotted, external=dotted)
+    if dotted in ("contextlib.closing", "contextlib.nullcontext"):
+        return Builtin(dotted, lambda x=None: x)          # the with-statement binds the object itself
+    if dotted == "contextlib.suppress":
+        return Builtin(dotted, lambda *excs: ("<suppress>", excs))
+    if dotted == "ast.literal_eval":
+        import ast as _ast
+
+        def lit(text):
+            if not isinstance(text, str):
+                raise AnalysisError("ast.literal_eval of a symbolic string")
+            try:
+                v = _ast.literal_eval(text)
+            except (ValueError, SyntaxError) as exc:
+                raise SymRaise(type(exc).__name__, str(exc))
+
+            def conv(x):
+                if isinstance(x, bool) or x is None or isinstance(x, (str, bytes)):
+                    return x
+                if isinstance(x, (int, float, complex)):
+                    return to_expr(x)
+                if isinstance(x, tuple):
+                    return tuple(conv(y) for y in x)
+                if isinstance(x, list):
+                    return [conv(y) for y in x]
+                if isinstance(x, dict):
+                    return {conv(k): conv(y) for k, y in x.items()}
+                if isinstance(x, (set, frozenset)):
+                    return set(conv(y) for y in x)
+                raise AnalysisError(f"literal {x!r}")
+            return conv(v)
+        return Builtin(dotted, lit)
     if dotted == "enum.auto":
         return Builtin(dotted, lambda: I.new_obj("enum.auto()"))
     if dotted in ("enum.unique", "typing.final", "typing.runtime_checkable"):
@@ -1658,6 +1700,30 @@ def external(I, dotted):
         if name == "abs":
             return I.builtins["abs"]
         return Builtin(dotted, lambda a: sp.Not(truth(I, a)) if not isinstance(truth(I, a), bool) else (not truth(I, a)))
+    if mod == "operator":
+        two = {"floordiv": ast.FloorDiv, "mod": ast.Mod, "pow": ast.Pow, "matmul": ast.MatMult, "and_": ast.BitAnd, "or_": ast.BitOr,
+               "xor": ast.BitXor, "concat": ast.Add}
+        if name in two:
+            return Builtin(dotted, lambda a, b: binop(I, two[name](), a, b))
+        if name == "getitem":
+            return Builtin(dotted, lambda a, k: I.call(I.getattr(a, "__getitem__"), [k], {})
+                           if isinstance(a, SymObj) and a.cls is not None else subscript(I, a, k))
+        if name == "contains":
+            return Builtin(dotted, lambda a, k: compare(I, ast.In(), k, a))
+        if name in ("is_", "is_not"):
+            return Builtin(dotted, lambda a, b: compare(I, ast.Is() if name == "is_" else ast.IsNot(), a, b))
+        if name == "truth":
+            return Builtin(dotted, lambda a: _pb(truth(I, a)))
+        if name == "index":
+            return Builtin(dotted, lambda a: sp.Integer(concrete_int(a)))
+        if name == "setitem":
+            def setitem(a, k, v):
+                if isinstance(a, (dict, list)):
+                    a[_key(k) if isinstance(a, dict) else concrete_int(k)] = v
+                    return None
+                return I.call(I.getattr(a, "__setitem__"), [k, v], {})
+            return Builtin(dotted, setitem)
+        raise AnalysisError(f"operator.{name} is not modelled")
     if dotted == "itertools.groupby":
         def groupby(it, key=None):
             out = []
